@@ -82,7 +82,8 @@ Lemma set_opt1_ok om n o b :
   om_inv om -> oassert_guard (n, o, b) = true ->
   (forall a', om_has om a' -> ocompat (n, o, b) a' = true) ->
   exists om', set_opt1 om n o b false = Ok om' /\ om_inv om'
-              /\ (forall a', om_has om' a' <-> (om_has om a' \/ a' = (n, o, b))).
+              /\ (forall a', om_has om' a' <-> (om_has om a' \/ a' = (n, o, b)))
+              /\ (om' = om \/ (assoc optkey_eqb (n, o) om = None /\ om' = om ++ [((n, o), (b, b, true))])).
 Proof.
   intros Hinv Hg Hc. unfold set_opt1.
   unfold oassert_guard in Hg. apply negb_true_iff in Hg. rewrite Hg.
@@ -93,12 +94,12 @@ Proof.
     subst b0. cbn [orb negb]. rewrite Bool.eqb_reflx. cbn [bind].
     assert (Hres : forall a', om_has om a' <-> om_has om a' \/ a' = (n, o, b)).
     { intros a'. split; [tauto|]. intros [H| ->]; [exact H|exact Ek]. }
-    destruct (opposite o) as [opp|] eqn:Eo; [|exists om; auto].
-    destruct (assoc optkey_eqb (n, opp) om) as [[[oo od] ofx]|] eqn:Eopp; [|exists om; auto].
+    destruct (opposite o) as [opp|] eqn:Eo; [|exists om; auto 6].
+    destruct (assoc optkey_eqb (n, opp) om) as [[[oo od] ofx]|] eqn:Eopp; [|exists om; auto 6].
     destruct (Hinv _ _ Eopp) as [b1 Hb1]. inversion Hb1; subst oo od ofx. clear Hb1.
     rewrite Ek. cbn [orb negb].
     destruct (ocompat_opp n o opp b b1 (Hc (n, opp, b1) Eopp) Eo) as [-> ->].
-    cbn. exists om. auto.
+    cbn. exists om. auto 6.
   - (* new entry *)
     cbn [bind negb].
     set (om1 := om ++ [((n, o), (b, b, true))]).
@@ -122,18 +123,18 @@ Proof.
           split; [intros [= ->]; now right|intros [H|H]; [discriminate|now inversion H]].
         + split; [discriminate|]. intros [H|H]; [discriminate|].
           inversion H; subst. rewrite (proj2 (optkey_eqb_true _ _) eq_refl) in Ekk. discriminate. }
-    destruct (opposite o) as [opp|] eqn:Eo; [|exists om1; auto].
+    destruct (opposite o) as [opp|] eqn:Eo; [|exists om1; auto 6].
     assert (Hoppk : assoc optkey_eqb (n, opp) om1 = assoc optkey_eqb (n, opp) om).
     { unfold om1. destruct (assoc optkey_eqb (n, opp) om) as [x|] eqn:Ex.
       - now apply assoc_app_some.
       - rewrite (assoc_app_none _ _ _ _ Ex), assoc_single_opt.
         unfold optkey_eqb. cbn. rewrite Nat.eqb_refl, (opposite_neq _ _ Eo). reflexivity. }
     fold om1. rewrite Hoppk.
-    destruct (assoc optkey_eqb (n, opp) om) as [[[oo od] ofx]|] eqn:Eopp; [|exists om1; auto].
+    destruct (assoc optkey_eqb (n, opp) om) as [[[oo od] ofx]|] eqn:Eopp; [|exists om1; auto 6].
     destruct (Hinv _ _ Eopp) as [b1 Hb1]. inversion Hb1; subst oo od ofx. clear Hb1.
     rewrite Hself. cbn [orb negb].
     destruct (ocompat_opp n o opp b b1 (Hc (n, opp, b1) Eopp) Eo) as [-> ->].
-    cbn. exists om1. auto.
+    cbn. exists om1. auto 6.
 Qed.
 
 Lemma opt_fold_ok : forall (l : list oassert) om,
@@ -145,7 +146,7 @@ Proof.
   induction l as [|[[n o] b] r IH]; intros om Hinv Hg Hc.
   - exists om. cbn. repeat split; auto; tauto.
   - cbn [forallb] in Hg. apply andb_true_iff in Hg. destruct Hg as [Hg1 Hg2].
-    destruct (set_opt1_ok om n o b Hinv Hg1) as [om1 [E1 [Hinv1 Hres1]]].
+    destruct (set_opt1_ok om n o b Hinv Hg1) as [om1 [E1 [Hinv1 [Hres1 _]]]].
     { intros a' Ha'. apply Hc; [right; now left|now left]. }
     destruct (IH om1 Hinv1 Hg2) as [om2 [E2 [Hinv2 Hres2]]].
     { intros x y Hx Hy. apply Hc.
